@@ -86,7 +86,10 @@ func checkC05(ctx *Ctx, sc *Scenario) {
 		}
 		// counting clause
 		delta := rec.StatsAfter.UnexpectedPwmValueCount - rec.StatsBefore.UnexpectedPwmValueCount
-		if rec.HadPrev && prevDevAfter >= 0 && lastMidCycle != rec.Idx-1 {
+		if it != nil && it.Unreadable {
+			// fan2go cannot see the change in this cycle (it must put the fan right all the same); nothing is demanded of the counter
+			ctx.Count("interferences_while_the_pwm_cannot_be_read", 1)
+		} else if rec.HadPrev && prevDevAfter >= 0 && lastMidCycle != rec.Idx-1 {
 			// what fan2go had set is what the device held after the previous complete cycle
 			// (checked there to be a map output of a nearest supported input)
 			prevWant := []int{prevDevAfter}
@@ -179,6 +182,28 @@ func init() {
 					}
 				}
 			}
+		}
+		// cmd fans (every cycle runs the tool two or three times): interference between cycles, in a third of the cases
+		// while the tool cannot be queried during the following cycle
+		for i, nc := 0, ctx.N(16, 100); i < nc; i++ {
+			sc := c05Base(r, "cmd", "identity")
+			sc.Fan.HasEnable = false
+			sc.Fan.CmdOneTool = r.Intn(2) == 0
+			sc.Loop = LoopSpec{Kind: "direct"}
+			traj := genCurveTrajectory(r, 30, false)
+			for k := 0; k < 30; k++ {
+				st := CycleStep{Curve: traj[k], DtMs: 200, Polls: 1}
+				if k > 2 && r.Intn(5) == 0 {
+					st.Intrude = &Intrusion{Pwm: iptr(r.Intn(256)), Unreadable: r.Intn(2) == 0}
+					if r.Intn(3) > 0 {
+						// the target has been the same for two quiet cycles and stays the same
+						sc.Steps[k-1].Curve = sc.Steps[k-2].Curve
+						st.Curve = sc.Steps[k-2].Curve
+					}
+				}
+				sc.Steps = append(sc.Steps, st)
+			}
+			checkC05(ctx, sc)
 		}
 		// random multi-interference histories incl. mid-cycle interference
 		nr := ctx.N(8000, 80000)
